@@ -126,6 +126,7 @@ def run_case(case):
     tests = []
     tokens = {}        # token -> (test index, stream)
     swaps = []
+    nested = []
     nodes = []         # suite children in run order
     cls_of = {}        # test index -> class name
     for i, kind in enumerate(case['seq']):
@@ -168,6 +169,16 @@ def run_case(case):
                                               '80', 'eda0800a'])
             t['actions'].append(act)
             tokens[tok] = (i, stream, ph, style)
+        if case['buffer'] and not case['cli'] and kind in (
+                'fail', 'error', 'teardown_error', 'cleanup_error',
+                'body_teardown_error', 'pass') and rng.random() < 0.08:
+            # after what it wrote so far the test runs the test runner
+            # itself, buffered too (in-process, output captured, own tree):
+            # the inner run has capture streams of its own
+            t['actions'].append({'ph': 'body', 'do': 'nested_run',
+                                 'argv': ['--buffer'],
+                                 'fail': rng.random() < 0.5})
+            nested.append(i)
         t['actions'].append({'ph': 'body', 'do': 'probe_streams'})
         if case['buffer'] and kind == 'pass' and rng.random() < 0.15:
             # a passing test that leaves its own StringIO installed (only
@@ -370,6 +381,9 @@ def run_case(case):
         sig = [case['seq'], sorted((v[0], v[1], v[2], v[3])
                                    for v in tokens.values()), opts]
     C('stream_swapping_tests', len(swaps))
+    C('buffered_tests_running_a_buffered_inner_run', sum(
+        1 for e in w.events if e['k'] == 'nested.run'))
+    common.judge_nested(w.events, V, C)
     C('class_fixture_events', sum(
         1 for e in w.events if e['k'].startswith('class.')))
     C('unit_elements', sum(1 for k in case['seq'] if k in UNIT_KINDS))
